@@ -296,7 +296,8 @@ fn check_law(ctx: &Ctx, b: &mut Batch, r: &mut Sm, spec: &Spec, ops: &Ops, label
                 rep("distance-law", format!("compound distance {d} != sqrt(sum (w_i d_i)^2) = {want_d}"), a, bb, 0.0);
             }
             let scratch = &states[(ia * 11 + k * 3 + 5) % states.len()];
-            for t in [0.0, 0.3, r.f(), 1.0] {
+            // (beyond [0, 1] the components extrapolate; so must the compound)
+            for t in [0.0, 0.3, r.f(), 1.0, 1.25, -0.25, 1.0 + 1e-9] {
                 let it = (ops.interpolate)(a, bb, t, scratch);
                 let mut want = vec![];
                 for (i, c) in comps.iter().enumerate() {
